@@ -190,11 +190,18 @@ func cmdVerify(args []string) int {
 	if *tier == "thorough" {
 		timeout = 120 * time.Second
 	}
+	known, fixed := readKnown(*knownPath)
+	_ = fixed
+	for _, o := range all {
+		for _, k := range known {
+			if k.Obl == o.Name {
+				o.ShortTimeout = true
+			}
+		}
+	}
 	dischargeAll(all, dir, timeout, 10)
 	solveT := time.Since(t0) - loadT - genT
 
-	known, fixed := readKnown(*knownPath)
-	_ = fixed
 	violations := 0
 	nd := 0
 	solverSecs := 0.0
@@ -235,6 +242,7 @@ func cmdVerify(args []string) int {
 		pid = "ALL"
 	}
 	knownHit := map[string]bool{}
+	nKnown := 0
 	for _, o := range failed {
 		isKnown := false
 		for _, k := range known {
@@ -247,6 +255,7 @@ func cmdVerify(args []string) int {
 			}
 		}
 		if isKnown {
+			nKnown++
 			continue
 		}
 		violations++
@@ -277,7 +286,7 @@ func cmdVerify(args []string) int {
 		violations++
 	}
 	if *evid != "" {
-		writeEvidence(*evid, pid, *tier, seed, *level, w, reports, all, nd, violations, bySolver, solverSecs, time.Since(t0).Seconds(), known, knownHit)
+		writeEvidence(*evid, pid, *tier, seed, *level, w, reports, all[:len(all)-nKnown], nd, violations, bySolver, solverSecs, time.Since(t0).Seconds(), known, knownHit)
 	}
 	if violations > 0 {
 		return 1
